@@ -579,7 +579,7 @@ theorem pushStructEntries_bl : ∀ (es : SEntries), noRawe es = true → Entries
     have hkeys' : (keysAreStrings rest).isOk = false → path ∈ S := by
       intro h; apply hkeys
       simpa [keysAreStrings, specKey_eq, normErr_ok, normErr_error, hkey, bind, Except.bind] using h
-    have hek : entryKeys (.cons kx x rest) = key :: entryKeys rest := by simp [entryKeys, hkey]
+    have hek : entryKeys (.cons kx x rest) = key :: entryKeys rest := by simp [entryKeys, keyOf_eq, hkey, Except.toOption]
     split
     · rename_i hnone
       have hunk : ∀ (j : Nat), (sfs.toList.map Field.name)[j]? ≠ some key := by
@@ -590,7 +590,7 @@ theorem pushStructEntries_bl : ∀ (es : SEntries), noRawe es = true → Entries
       have hk0 : knownKeys sfs.toList (entryKeys (.cons kx x rest)) = knownKeys sfs.toList (entryKeys rest) := by
         rw [hek]; simp [knownKeys, any_unknown_of hunk]
       have hb0 : blameEntriesStruct ext path sfs.toList (.cons kx x rest) = blameEntriesStruct ext path sfs.toList rest := by
-        simp [blameEntriesStruct, hkey, Except.toOption, find_none_of hunk]
+        simp [blameEntriesStruct, keyOf_eq, hkey, Except.toOption, find_none_of hunk]
       rw [hk0] at hdup hk
       rw [hb0] at hin
       exact pushStructEntries_bl rest hraw'.2 k S path sfs _ done (hm.next _) (hs.next _) (by simp only; omega)
@@ -614,7 +614,7 @@ theorem pushStructEntries_bl : ∀ (es : SEntries), noRawe es = true → Entries
         have := vsize_pos ext kx
         refine Bl.mono (fun q hq => hin q ?_) (push_bl x hraw'.1.2 c _ _ _ _ hgc hac (by omega))
         obtain ⟨fname, fdt, fn, fmd⟩ := f
-        simp only [blameEntriesStruct, hkey, Except.toOption, Option.bind_some, hfind, List.mem_append]
+        simp only [blameEntriesStruct, keyOf_eq, hkey, Except.toOption, Option.bind_some, hfind, List.mem_append]
         exact .inl hq
       · obtain ⟨c, m, c', _, hget, hpc, rfl⟩ := element_ok_inv h1
         obtain ⟨f, hfj, _, _, hgc, hac⟩ := hm.kids.get hget
